@@ -596,15 +596,55 @@ Qed.
 
 Lemma remove_at_lex wd fp f f' :
   Inv wd f -> sinside wd fp -> lexreal f [] fp = true -> remove_at f fp = Some f' ->
-  f' = del_ent fp f /\ Keeps wd f f'.
+  f' = del_ent fp f /\ Keeps wd f f' /\ (lookup f fp = Some NDir -> has_child f fp = false).
 Proof.
   intros I Hs HL H. unfold remove_at in H.
   pose proof (walk_lexical f fp FUEL NLINK [] HL) as Wl. fold (awalk f fp false) in Wl.
+  pose proof (walk_lookup f FUEL NLINK [] (Nms fp) false) as Wk. fold (awalk f fp false) in Wk.
   assert (forall p, p = fp -> Some (del_ent p f) = Some f' -> f' = del_ent fp f /\ Keeps wd f f').
   { intros p -> [= <-]. split; [reflexivity | now apply keeps_del]. }
-  destruct (awalk f fp false); try discriminate; simpl in Wl; try (now apply (H0 p)).
-  destruct p; [discriminate|]. destruct (has_child f (n :: p)); [discriminate|]. now apply (H0 (n :: p)).
+  destruct (awalk f fp false); try discriminate; simpl in Wl.
+  - destruct p; [discriminate|]. destruct (has_child f (n :: p)) eqn:HC; [discriminate|].
+    destruct (H0 (n :: p) Wl H) as [A B]. subst fp. split; [exact A|]. split; [exact B|]. intros _. exact HC.
+  - destruct (H0 p Wl H) as [A B]. split; [exact A|]. split; [exact B|]. subst p. destruct Wk as [L _]. rewrite L. discriminate.
+  - destruct (H0 p Wl H) as [A B]. split; [exact A|]. split; [exact B|]. subst p. destruct Wk as [L _]. rewrite L. discriminate.
 Qed.
+
+(* an entry below a directory shows in has_child *)
+Lemma lookup_ents_in l : forall p n, lookup_ents l p = Some n -> exists k, In (k, n) l /\ k = p.
+Proof.
+  induction l as [|[k v] l IH]; intros p n H; [discriminate|]. simpl in H.
+  destruct (path_eqb k p) eqn:E.
+  - injection H as <-. apply path_eqb_spec in E. exists k. split; [now left | exact E].
+  - destruct (IH _ _ H) as (k' & Hin & Ek). exists k'. split; [now right | exact Ek].
+Qed.
+
+Lemma has_child_false f p c : has_child f p = false -> lookup f (p ++ [c]) = None.
+Proof.
+  intro H. destruct (lookup f (p ++ [c])) as [n|] eqn:L; [|reflexivity]. exfalso.
+  apply lookup_ents_in in L as (k & Hin & ->).
+  unfold has_child in H. rewrite <- Bool.not_true_iff_false in H. apply H.
+  apply existsb_exists. exists (p ++ [c], n). split; [exact Hin|]. simpl.
+  assert (E : strip_prefix p (p ++ [c]) = Some [c]) by now apply strip_prefix_spec. rewrite E. reflexivity.
+Qed.
+
+(* how one archive entry may change what is at a location (for the directories recorded so far) *)
+Definition child_of (f : fsys) (fp : path) : Prop := exists c, lookup f (fp ++ [c]) <> None.
+
+Definition Step (f f' : fsys) (fp : path) : Prop :=
+  (forall q v, lookup f q = Some v -> lookup f' q = Some v) \/
+  (only_at f f' fp /\ lookup f' fp <> None /\
+   (lookup f fp = Some NDir -> child_of f fp -> lookup f' fp = Some NDir)).
+
+Lemma Step_same f f' f'' fp : (forall q, lookup f'' q = lookup f' q) -> Step f f' fp -> Step f f'' fp.
+Proof.
+  intros S [M|(O & B & C)]; [left | right].
+  - intros q v L. rewrite S. now apply M.
+  - split; [intros q Hq; rewrite S; now apply O|]. split; [now rewrite S|]. intros L Hc. rewrite S. now apply C.
+Qed.
+
+Lemma Step_refl f fp : Step f f fp.
+Proof. left. auto. Qed.
 
 Lemma only_at_del f fp : only_at f (del_ent fp f) fp.
 Proof. intros q Hq. rewrite lookup_delent, path_eqb_neq; [reflexivity | congruence]. Qed.
@@ -629,7 +669,7 @@ Proof.
   destruct fp as [|x fp']; [rewrite remove_at_nil in H; discriminate|].
   assert (Hs : sinside wd (x :: fp')).
   { eapply inside_sinside; eauto; [discriminate | rewrite L; discriminate]. }
-  destruct (remove_at_lex wd _ f f' I Hs HL H) as [-> K].
+  destruct (remove_at_lex wd _ f f' I Hs HL H) as (-> & K & _).
   split; [exact K|]. split; [apply only_at_del|].
   intros d0 a0 cs0. rewrite lookup_delent, path_eqb_refl. discriminate.
 Qed.
@@ -637,34 +677,40 @@ Qed.
 Lemma do_symlink_lex wd fp d a cs f f' :
   Inv wd f -> sinside wd fp -> lexreal f [] fp = true ->
   do_symlink f fp (NSym d a cs) = Some f' ->
-  Keeps wd f f' /\ only_at f f' fp.
+  Keeps wd f f' /\ only_at f f' fp /\ Step f f' fp.
 Proof.
   intros I Hs HL H. unfold do_symlink in H.
   pose proof (walk_lexical f fp FUEL NLINK [] HL) as Wl. fold (awalk f fp false) in Wl.
   assert (Hretry : match remove_at f fp with
                    | None => None
                    | Some f1 => match awalk f1 fp false with WNoEnt q => Some (set_ent q (NSym d a cs) f1) | _ => None end
-                   end = Some f' -> Keeps wd f f' /\ only_at f f' fp).
+                   end = Some f' -> Keeps wd f f' /\ only_at f f' fp /\ Step f f' fp).
   { destruct (remove_at f fp) as [f1|] eqn:R; [|discriminate].
-    destruct (remove_at_lex wd fp f f1 I Hs HL R) as (E1 & K1). clear R. subst f1.
+    destruct (remove_at_lex wd fp f f1 I Hs HL R) as (E1 & K1 & HC). clear R. subst f1.
     set (f1 := del_ent fp f) in *.
     assert (HL1 : lexreal f1 [] fp = true).
     { rewrite <- HL. apply lexreal_only_at. apply only_at_del. }
     pose proof (walk_lexical f1 fp FUEL NLINK [] HL1) as Wl1. fold (awalk f1 fp false) in Wl1.
     destruct (awalk f1 fp false); try discriminate. simpl in Wl1. subst p. intros [= <-].
     pose proof (keeps_set wd f1 fp (NSym d a cs) (proj1 K1) Hs Logic.I) as K2.
-    split; [eapply Keeps_trans; eauto|].
-    eapply only_at_trans; [apply only_at_del | apply only_at_set]. }
+    assert (O : only_at f (set_ent fp (NSym d a cs) f1) fp)
+      by (eapply only_at_trans; [apply only_at_del | apply only_at_set]).
+    split; [eapply Keeps_trans; eauto|]. split; [exact O|]. right. split; [exact O|].
+    split; [rewrite lookup_set, path_eqb_refl; discriminate|].
+    intros L [c Hc]. exfalso. apply Hc. apply has_child_false. now apply HC. }
+  pose proof (walk_lookup f FUEL NLINK [] (Nms fp) false) as Wk. fold (awalk f fp false) in Wk.
   destruct (awalk f fp false); try discriminate; try (apply Hretry; exact H).
-  simpl in Wl. subst p. injection H as <-.
-  split; [apply keeps_set; auto; exact Logic.I | apply only_at_set].
+  simpl in Wl. subst p. injection H as <-. destruct Wk as [Ln _].
+  split; [apply keeps_set; auto; exact Logic.I|]. split; [apply only_at_set|].
+  right. split; [apply only_at_set|]. split; [rewrite lookup_set, path_eqb_refl; discriminate|].
+  intros L. rewrite Ln in L. discriminate.
 Qed.
 
 Lemma do_link_lex wd cwd fp pn tgt f f' :
   Inv wd f -> inside wd fp = true -> lexreal f [] fp = true ->
   inside wd pn = true -> lexreal f [] pn = true ->
   do_link cfg_fixed f cwd fp pn tgt = Some f' ->
-  Keeps wd f f' /\ only_at f f' fp.
+  Keeps wd f f' /\ only_at f f' fp /\ Step f f' fp.
 Proof.
   intros I Hfp HLfp Hpn HLpn H. unfold do_link in H. cbn [fixH cfg_fixed] in H.
   pose proof (walk_lexical f pn FUEL NLINK [] HLpn) as Wo. fold (awalk f pn false) in Wo.
@@ -674,11 +720,13 @@ Proof.
   destruct tgt as [|t0 tgt']; [discriminate|].
   assert (Hnew : forall n, node_ok wd f fp n ->
             match awalk f fp false with WNoEnt q => Some (set_ent q n f) | _ => None end = Some f' ->
-            Keeps wd f f' /\ only_at f f' fp).
+            Keeps wd f f' /\ only_at f f' fp /\ Step f f' fp).
   { intros n Hn H2. destruct (awalk f fp false); try discriminate. simpl in Wn. subst p.
     destruct Kn as [Ln Hne]. injection H2 as <-.
-    split; [|apply only_at_set]. apply keeps_set; auto.
-    eapply inside_sinside; eauto. rewrite Ln. discriminate. }
+    split; [|split; [apply only_at_set|]].
+    - apply keeps_set; auto. eapply inside_sinside; eauto. rewrite Ln. discriminate.
+    - right. split; [apply only_at_set|]. split; [rewrite lookup_set, path_eqb_refl; discriminate|].
+      intros L. rewrite Ln in L. discriminate. }
   destruct (awalk f pn false); try discriminate; simpl in Wo; subst p; destruct Ko as [Lo _].
   - apply (Hnew (NFile i)); [|exact H]. exists pn. split; assumption.
   - apply (Hnew (NSym d a cs)); [exact Logic.I | exact H].
@@ -775,11 +823,37 @@ Qed.
 Lemma RealD_same f f' dp : (forall q, lookup f' q = lookup f q) -> RealD f [] dp -> RealD f' [] dp.
 Proof. intros S H q r E Hq. rewrite S. apply (H q r E Hq). Qed.
 
+Lemma write_at_dir_none f fp c mo :
+  lexreal f [] fp = true -> lookup f fp = Some NDir -> write_at f (Nms fp) c mo = None.
+Proof.
+  intros HL L. unfold write_at.
+  assert (Hns : forall d a cs, lookup f fp <> Some (NSym d a cs)) by (intros; rewrite L; discriminate).
+  pose proof (walk_lex f fp FUEL NLINK [] true HL (fun _ => Hns)) as Wl.
+  pose proof (walk_lookup f FUEL NLINK [] (Nms fp) true) as Wk.
+  destruct (walk FUEL f NLINK [] (Nms fp) true); try reflexivity; simpl in Wl; subst p;
+    destruct Wk as [L2 _]; rewrite L in L2; discriminate.
+Qed.
+
+Lemma mkdir_real_mono mo : forall qs cur f f',
+  mkdir_real f cur qs mo = Some f' -> forall q v, lookup f q = Some v -> lookup f' q = Some v.
+Proof.
+  induction qs as [|c r IH]; intros cur f f' H q v L.
+  - injection H as <-. exact L.
+  - cbn [mkdir_real] in H. destruct (lookup f (cur ++ [c])) as [[|i|d a cs]|] eqn:E; try discriminate.
+    + eapply IH; eauto.
+    + pose proof (walk_lookup f FUEL NLINK [] (Nms (cur ++ [c])) false) as Wk. fold (awalk f (cur ++ [c]) false) in Wk.
+      destruct (awalk f (cur ++ [c]) false); try discriminate. destruct Wk as [Ln _].
+      eapply IH; [exact H|]. unfold new_dir. rewrite lookup_setdmode, lookup_set.
+      destruct (path_eqb p q) eqn:Ep; [|exact L]. apply path_eqb_spec in Ep. subst q. congruence.
+Qed.
+
 Lemma extract_entry_core_keeps wd pres cwd dp dirName f e f' :
   Inv wd f -> inside wd dp = true -> RealD f [] dp ->
   extract_entry_core cfg_fixed pres cwd dp dirName f e = Some f' ->
   exists rel, entry_rel dp dirName (entry_name e) = Some rel /\
-              Keeps wd f f' /\ RealD f' [] dp /\ lexreal f' [] (dp ++ rel) = true.
+              Keeps wd f f' /\ RealD f' [] dp /\ lexreal f' [] (dp ++ rel) = true /\
+              Step f f' (dp ++ rel) /\
+              (match e with EDir _ _ => RealD f' [] (dp ++ rel) | _ => True end).
 Proof.
   intros I Hd HR H. unfold extract_entry_core, resolve_rel in H. cbn [fixR fixN fixW cfg_fixed] in H.
   destruct (entry_rel dp dirName (entry_name e)) as [rel|] eqn:ER; [|discriminate].
@@ -795,48 +869,51 @@ Proof.
   destruct e as [nm c mo|nm mo|nm tgt|nm tgt|nm]; cbn [entry_name] in *.
   - (* regular file *)
     destruct rel as [|r0 rel']; [discriminate|].
-    + set (rel := r0 :: rel') in *. set (fp := dp ++ rel) in *.
-      destruct (unlink_if_symlink f fp) as [f0|] eqn:U; [|discriminate].
-      destruct (unlink_if_lex wd fp f f0 I Hfp HL U) as (K0 & O0 & N0).
-      assert (HL0 : lexreal f0 [] fp = true) by (rewrite (lexreal_only_at _ _ _ O0); exact HL).
-      unfold chmod_if in H.
-      destruct (write_at f0 (Nms fp) c mo) as [f1|] eqn:Wr; [|discriminate].
-      destruct (write_at_lex wd fp c mo f0 f1 (proj1 K0) Hfp HL0 N0 Wr) as (K1 & O1 & (i & L1)).
-      assert (K01 : Keeps wd f f1) by (eapply Keeps_trans; eauto).
-      assert (O01 : only_at f f1 fp) by (eapply only_at_trans; eauto).
-      destruct pres.
-      * assert (HL1 : lexreal f1 [] fp = true) by (rewrite (lexreal_only_at _ _ _ O1); exact HL0).
-        assert (N1 : forall d a cs, lookup f1 fp <> Some (NSym d a cs)) by (intros; rewrite L1; discriminate).
-        destruct (chmod_at_lex wd fp mo f1 f' (proj1 K1) Hfp HL1 N1 H) as (K2 & S2).
-        apply Hat; [discriminate | eapply Keeps_trans; eauto|].
-        intros q Hq. rewrite S2. now apply O01.
-      * injection H as <-. apply Hat; [discriminate | exact K01 | exact O01].
-  - (* directory *)
+    set (rel := r0 :: rel') in *. set (fp := dp ++ rel) in *.
+    destruct (unlink_if_symlink f fp) as [f0|] eqn:U; [|discriminate].
+    destruct (unlink_if_lex wd fp f f0 I Hfp HL U) as (K0 & O0 & N0).
+    assert (HL0 : lexreal f0 [] fp = true) by (rewrite (lexreal_only_at _ _ _ O0); exact HL).
     unfold chmod_if in H.
-    destruct (mkdir_real f dp rel mo) as [f1|] eqn:M; [|discriminate].
-    destruct (mkdir_real_lex wd mo rel dp f f1 I Hd HR M) as (K1 & R1 & O1).
+    destruct (write_at f0 (Nms fp) c mo) as [f1|] eqn:Wr; [|discriminate].
+    destruct (write_at_lex wd fp c mo f0 f1 (proj1 K0) Hfp HL0 N0 Wr) as (K1 & O1 & (i & L1)).
+    assert (K01 : Keeps wd f f1) by (eapply Keeps_trans; eauto).
+    assert (O01 : only_at f f1 fp) by (eapply only_at_trans; eauto).
+    assert (S01 : Step f f1 fp).
+    { right. split; [exact O01|]. split; [rewrite L1; discriminate|].
+      intros L _. exfalso. unfold unlink_if_symlink in U. rewrite L in U. injection U as <-.
+      rewrite (write_at_dir_none f fp c mo HL L) in Wr. discriminate. }
     destruct pres.
-    + destruct (chmod_at_real wd (dp ++ rel) mo f1 f' (proj1 K1) Hfp R1 H) as (K2 & S2).
-      split; [eapply Keeps_trans; eauto|].
-      assert (R2 : RealD f' [] (dp ++ rel)) by (apply (RealD_same f1); assumption).
-      split; [eapply RealD_prefix; eauto|]. rewrite <- (app_nil_r (dp ++ rel)). now apply RealD_lexreal.
-    + injection H as <-. split; [exact K1|]. split; [eapply RealD_prefix; eauto|].
-      rewrite <- (app_nil_r (dp ++ rel)). now apply RealD_lexreal.
+    + assert (HL1 : lexreal f1 [] fp = true) by (rewrite (lexreal_only_at _ _ _ O1); exact HL0).
+      assert (N1 : forall d a cs, lookup f1 fp <> Some (NSym d a cs)) by (intros; rewrite L1; discriminate).
+      destruct (chmod_at_lex wd fp mo f1 f' (proj1 K1) Hfp HL1 N1 H) as (K2 & S2).
+      assert (O02 : only_at f f' fp) by (intros q Hq; rewrite S2; now apply O01).
+      destruct (Hat f' ltac:(discriminate) (Keeps_trans _ _ _ _ K01 K2) O02) as (A & B & C).
+      split; [exact A|]. split; [exact B|]. split; [exact C|]. split; [exact (Step_same f f1 f' fp S2 S01) | exact Logic.I].
+    + injection H as <-. destruct (Hat f1 ltac:(discriminate) K01 O01) as (A & B & C).
+      split; [exact A|]. split; [exact B|]. split; [exact C|]. split; [exact S01 | exact Logic.I].
+  - (* directory: created (writable for the owner), mode restored at the end *)
+    destruct (mkdir_real_lex wd _ rel dp f f' I Hd HR H) as (K1 & R1 & O1).
+    split; [exact K1|]. split; [eapply RealD_prefix; eauto|].
+    split; [rewrite <- (app_nil_r (dp ++ rel)); now apply RealD_lexreal|].
+    split; [left; eapply mkdir_real_mono; eauto | exact R1].
   - (* hard link *)
     destruct rel as [|r0 rel']; [discriminate|]. set (rel := r0 :: rel') in *.
     destruct (ensure_link f dp (dp ++ rel) tgt) as [pn|] eqn:EL; [|discriminate].
     destruct (ensure_link_lex _ _ _ _ _ _ Hd HR EL) as [Hpn HLpn].
-    destruct (do_link_lex wd cwd (dp ++ rel) pn tgt f f' I Hfp HL Hpn HLpn H) as [K O].
-    apply Hat; [discriminate | exact K | exact O].
+    destruct (do_link_lex wd cwd (dp ++ rel) pn tgt f f' I Hfp HL Hpn HLpn H) as (K & O & S).
+    destruct (Hat f' ltac:(discriminate) K O) as (A & B & C).
+    split; [exact A|]. split; [exact B|]. split; [exact C|]. split; [exact S | exact Logic.I].
   - (* symbolic link: created with the raw target *)
     destruct rel as [|r0 rel']; [discriminate|]. set (rel := r0 :: rel') in *.
     destruct (ensure_link f dp (dp ++ rel) tgt) as [pn|] eqn:EL; [|discriminate].
     destruct tgt as [|t0 tgt']; [discriminate|].
     assert (Hs : sinside wd (dp ++ rel)) by (apply inside_sinside_app; [exact Hd | discriminate]).
     unfold sym_node in H.
-    destruct (do_symlink_lex wd (dp ++ rel) _ _ _ f f' I Hs HL H) as [K O].
-    apply Hat; [discriminate | exact K | exact O].
-  - injection H as <-. split; [now apply Keeps_refl|]. split; [exact HR | exact HL].
+    destruct (do_symlink_lex wd (dp ++ rel) _ _ _ f f' I Hs HL H) as (K & O & S).
+    destruct (Hat f' ltac:(discriminate) K O) as (A & B & C).
+    split; [exact A|]. split; [exact B|]. split; [exact C|]. split; [exact S | exact Logic.I].
+  - injection H as <-. split; [now apply Keeps_refl|]. split; [exact HR|]. split; [exact HL|].
+    split; [apply Step_refl | exact Logic.I].
 Qed.
 
 (* os.Chtimes after the entry: never through a link, so at the lexical location *)
@@ -859,44 +936,104 @@ Proof.
   split; [now apply Keeps_refl | reflexivity].
 Qed.
 
-Lemma extract_entry_keeps wd pres cwd dp dirName f e t f' :
-  Inv wd f -> inside wd dp = true -> RealD f [] dp ->
+(* a recorded directory: every proper ancestor is a real directory and still has its child on
+   the path, so no later entry can turn it into a link *)
+Definition Recd (f : fsys) (fp : path) : Prop :=
+  forall q c r, fp = q ++ c :: r -> q <> [] -> lookup f q = Some NDir /\ lookup f (q ++ [c]) <> None.
+
+Lemma Recd_of_RealD f fp : RealD f [] fp -> Recd f fp.
+Proof.
+  intros HR q c r E Hq. split.
+  - apply (HR q (c :: r) E Hq).
+  - pose proof (HR (q ++ [c]) r) as L. simpl in L. rewrite L; [discriminate | now rewrite <- app_assoc | apply snoc_not_nil].
+Qed.
+
+Lemma Recd_same f f' fp : (forall q, lookup f' q = lookup f q) -> Recd f fp -> Recd f' fp.
+Proof. intros S H q c r E Hq. rewrite !S. now apply (H q c r). Qed.
+
+Lemma Recd_step f f' fp0 fp : Step f f' fp0 -> Recd f fp -> Recd f' fp.
+Proof.
+  intros [M|(O & B & C)] H q c r E Hq; destruct (H q c r E Hq) as [L1 L2].
+  - split; [now apply M|]. destruct (lookup f (q ++ [c])) as [v|] eqn:Ev; [|contradiction].
+    rewrite (M _ _ Ev). discriminate.
+  - split.
+    + destruct (path_eqb fp0 q) eqn:Eq.
+      * apply path_eqb_spec in Eq. subst fp0. apply C; [exact L1 | exists c; exact L2].
+      * rewrite O; [exact L1|]. intros ->. rewrite path_eqb_refl in Eq. discriminate.
+    + destruct (path_eqb fp0 (q ++ [c])) eqn:Eq.
+      * apply path_eqb_spec in Eq. subst fp0. exact B.
+      * rewrite O; [exact L2|]. intro E'. rewrite <- E', path_eqb_refl in Eq. discriminate.
+Qed.
+
+Lemma Recd_RealD f fp : Recd f fp -> lookup f fp = Some NDir -> RealD f [] fp.
+Proof.
+  intros H L q r E Hq. simpl. destruct r as [|c r'].
+  - rewrite app_nil_r in E. subst q. exact L.
+  - apply (H q c r' E Hq).
+Qed.
+
+Definition Recds (f : fsys) (dirs : list (path * N)) : Prop := Forall (fun d => Recd f (fst d)) dirs.
+
+Lemma extract_entry_keeps wd pres cwd dp dirName f e t f' dirs :
+  Inv wd f -> inside wd dp = true -> RealD f [] dp -> Recds f dirs ->
   extract_entry cfg_fixed pres cwd dp dirName f e t = Some f' ->
-  Keeps wd f f' /\ RealD f' [] dp.
+  Keeps wd f f' /\ RealD f' [] dp /\
+  Recds f' (match dir_record dp dirName e with Some d => d :: dirs | None => dirs end).
 Proof.
-  intros I Hd HR H. unfold extract_entry in H.
+  intros I Hd HR HD H. unfold extract_entry in H.
   destruct (extract_entry_core cfg_fixed pres cwd dp dirName f e) as [f1|] eqn:C; [|discriminate].
-  destruct (extract_entry_core_keeps _ _ _ _ _ _ _ _ I Hd HR C) as (rel & ER & K1 & R1 & L1).
-  assert (Ht : Keeps wd f (touch cfg_fixed f1 (dp ++ rel) t) /\ RealD (touch cfg_fixed f1 (dp ++ rel) t) [] dp).
-  { destruct (touch_keeps wd (dp ++ rel) t f1 (proj1 K1) (inside_app _ _ _ Hd) L1) as [K2 S2].
-    split; [eapply Keeps_trans; eauto | apply (RealD_same f1); assumption]. }
-  destruct e; cbn [entry_name] in *; try rewrite ER in H; injection H as <-; try exact Ht. split; assumption.
+  destruct (extract_entry_core_keeps _ _ _ _ _ _ _ _ I Hd HR C) as (rel & ER & K1 & R1 & L1 & S1 & D1).
+  assert (HD1 : Recds f1 (match dir_record dp dirName e with Some d => d :: dirs | None => dirs end)).
+  { assert (A : Recds f1 dirs).
+    { unfold Recds in *. rewrite Forall_forall in *. intros d Hin. eapply Recd_step; eauto. }
+    destruct e as [nm c mo|nm mo|nm tgt|nm tgt|nm]; cbn [dir_record entry_name] in *; try exact A.
+    rewrite ER. constructor; [|exact A]. simpl. now apply Recd_of_RealD. }
+  assert (Ht : forall g, (forall q, lookup g q = lookup f1 q) -> Keeps wd f1 g ->
+               Keeps wd f g /\ RealD g [] dp /\
+               Recds g (match dir_record dp dirName e with Some d => d :: dirs | None => dirs end)).
+  { intros g S K. split; [eapply Keeps_trans; eauto|]. split; [apply (RealD_same f1); assumption|].
+    unfold Recds in *. rewrite Forall_forall in *. intros d Hin. apply (Recd_same f1); auto. }
+  destruct (touch_keeps wd (dp ++ rel) t f1 (proj1 K1) (inside_app _ _ _ Hd) L1) as [K2 S2].
+  destruct e; cbn [entry_name] in *; try rewrite ER in H; injection H as <-;
+    try (apply Ht; assumption).
+  apply Ht; [reflexivity | apply Keeps_refl; exact (proj1 K1)].
 Qed.
 
-Lemma narrow_base_keeps wd dp m f f' :
-  Inv wd f -> inside wd dp = true -> RealD f [] dp ->
-  narrow_base f dp m = Some f' -> Keeps wd f f'.
+(* restoreDirModes: each chmod hits a recorded directory that is still a real directory *)
+Lemma restore_dirs_keeps wd pres : forall dirs f f' seen,
+  Inv wd f -> Recds f dirs -> Forall (fun d => inside wd (fst d) = true) dirs ->
+  restore_dirs pres f dirs seen = Some f' -> Keeps wd f f'.
 Proof.
-  intros I Hd HR H. unfold narrow_base in H.
-  destruct (lookup f dp) as [[|i|d a cs]|]; try discriminate; try (injection H as <-; now apply Keeps_refl).
-  destruct (N.land (dir_mode f dp) m =? dir_mode f dp)%N; [injection H as <-; now apply Keeps_refl|].
-  apply (chmod_at_real wd dp _ f f' I Hd HR H).
+  induction dirs as [|[p m] r IH]; intros f f' seen I HD Hin H.
+  - injection H as <-. now apply Keeps_refl.
+  - cbn [restore_dirs] in H. inversion HD as [|? ? Hp Hr]; subst. inversion Hin as [|? ? Ip Ir]; subst.
+    simpl in Hp, Ip.
+    destruct (existsb (path_eqb p) seen); [exact (IH f f' seen I Hr Ir H)|].
+    destruct (lookup f p) as [[|i|d a cs]|] eqn:L; try discriminate; try exact (IH f f' (p :: seen) I Hr Ir H).
+    match type of H with (if ?c then _ else _) = _ => destruct c end; [exact (IH f f' (p :: seen) I Hr Ir H)|].
+    match type of H with match chmod_at f p ?w with _ => _ end = _ => destruct (chmod_at f p w) as [f1|] eqn:Cm end; [|discriminate].
+    destruct (chmod_at_real wd p _ f f1 I Ip (Recd_RealD _ _ Hp L) Cm) as [K1 S1].
+    eapply Keeps_trans; [exact K1|]. apply (IH f1 f' (p :: seen) (proj1 K1)); [|exact Ir | exact H].
+    unfold Recds in *. rewrite Forall_forall in *. intros d Hd. apply (Recd_same f); auto.
 Qed.
 
-Lemma extract_keeps wd pres cwd dp dirName : forall es f f' ok ts base,
+Lemma extract_keeps wd pres cwd dp dirName : forall es f f' ok ts dirs,
   Inv wd f -> inside wd dp = true -> RealD f [] dp ->
-  extract cfg_fixed pres cwd dp dirName f es ts base = (f', ok) ->
+  Recds f dirs -> Forall (fun d => inside wd (fst d) = true) dirs ->
+  extract cfg_fixed pres cwd dp dirName f es ts dirs = (f', ok) ->
   Keeps wd f f'.
 Proof.
-  induction es as [|e es IH]; intros f f' ok ts base I Hd HR H.
-  - cbn [extract] in H. destruct base as [m|]; [|injection H as <- _; now apply Keeps_refl].
-    destruct pres; [injection H as <- _; now apply Keeps_refl|].
-    destruct (narrow_base f dp m) as [f1|] eqn:N; injection H as <- _; [|now apply Keeps_refl].
-    eapply narrow_base_keeps; eauto.
+  induction es as [|e es IH]; intros f f' ok ts dirs I Hd HR HD Hin H.
+  - cbn [extract] in H. destruct (restore_dirs pres f dirs []) as [f1|] eqn:R; injection H as <- _.
+    + eapply restore_dirs_keeps; eauto.
+    + now apply Keeps_refl.
   - cbn [extract] in H.
     destruct (extract_entry cfg_fixed pres cwd dp dirName f e (hd 0%N ts)) as [f1|] eqn:E.
-    + destruct (extract_entry_keeps _ _ _ _ _ _ _ _ _ I Hd HR E) as [K1 HR1].
-      eapply Keeps_trans; [exact K1|]. eapply IH; eauto. exact (proj1 K1).
+    + destruct (extract_entry_keeps _ _ _ _ _ _ _ _ _ dirs I Hd HR HD E) as (K1 & HR1 & HD1).
+      eapply Keeps_trans; [exact K1|]. eapply IH; eauto; [exact (proj1 K1)|].
+      destruct e as [nm c mo|nm mo|nm tgt|nm tgt|nm]; cbn [dir_record] in *; try exact Hin.
+      destruct (entry_rel dp dirName nm) as [rel|]; [|exact Hin].
+      constructor; [simpl; now apply inside_app | exact Hin].
     + injection H as <- _. now apply Keeps_refl.
 Qed.
 
@@ -978,7 +1115,7 @@ Proof.
           intros q r E Hq. destruct q; [contradiction | discriminate]. }
         assert (Hs : sinside wd cl) by (eapply inside_sinside; [exact (proj1 K3) | exact Hcl | exact Hne | rewrite L3; discriminate]).
         assert (HL3 : lexreal f2 [] cl = true) by (rewrite (lexreal_only_at _ _ _ O3); exact HL2).
-        destruct (remove_at_lex wd cl f2 f3 (proj1 K3) Hs HL3 Rm) as [_ K4].
+        destruct (remove_at_lex wd cl f2 f3 (proj1 K3) Hs HL3 Rm) as (_ & K4 & _).
         eapply Keeps_trans; eauto.
       * injection H as <- _. exact K12.
     + destruct (parent_outside wd cl Hcl SP) as [-> Hwd].
@@ -1001,10 +1138,10 @@ Proof.
     2:{ injection H as <- _. now apply Keeps_refl. }
     destruct (mkdir_real_lex wd 511 rel wd _ f1 I (inside_refl wd) HRwd M) as (K1 & R1 & _).
     rewrite <- SP in R1.
-    destruct (extract cfg_fixed pres cwd cl t f1 es ts None) as [f2 ok2] eqn:EX.
+    destruct (extract cfg_fixed pres cwd cl t f1 es ts []) as [f2 ok2] eqn:EX.
     injection H as <- _. simpl.
     eapply Keeps_trans; [exact K1|].
-    eapply extract_keeps; eauto. exact (proj1 K1).
+    apply (extract_keeps wd pres cwd cl t es f1 f2 ok2 ts [] (proj1 K1) Hcl R1 (Forall_nil _) (Forall_nil _) EX).
 Qed.
 
 Lemma pushes_keeps wd pres cwd : forall os s s' oks,
@@ -1072,11 +1209,11 @@ Proof.
   apply entry_rel_inside in E. rewrite E, inside_app in He; [discriminate | exact Ht].
 Qed.
 
-Lemma extract_stops g pres cwd dp dirName e es2 : forall es1 f ts base,
+Lemma extract_stops g pres cwd dp dirName e es2 : forall es1 f ts (dirs : list (path * N)),
   (forall f0 t, extract_entry g pres cwd dp dirName f0 e t = None) ->
-  snd (extract g pres cwd dp dirName f (es1 ++ e :: es2) ts base) = false.
+  snd (extract g pres cwd dp dirName f (es1 ++ e :: es2) ts dirs) = false.
 Proof.
-  induction es1 as [|e1 es1 IH]; intros f ts base H; cbn [app extract].
+  induction es1 as [|e1 es1 IH]; intros f ts dirs H; cbn [app extract].
   - now rewrite H.
   - destruct (extract_entry g pres cwd dp dirName f e1 (hd 0%N ts)); [now apply IH | reflexivity].
 Qed.
@@ -1210,9 +1347,9 @@ Proof.
   destruct (write_path g wd title) as [raw|] eqn:EW; [|reflexivity].
   apply write_path_lex in EW as [Hin ->].
   match goal with |- snd (match ?m with Some _ => _ | None => _ end) = _ => destruct m as [f1|] end; [|reflexivity].
-  pose proof (extract_stops g pres cwd (lex_loc wd title) title e es2 es1 f1 ts None
+  pose proof (extract_stops g pres cwd (lex_loc wd title) title e es2 es1 f1 ts []
                 (fun f0 => entry_outside_rejected g pres wd cwd title f0 e Hin He)) as Hs.
-  destruct (extract g pres cwd (lex_loc wd title) title f1 (es1 ++ e :: es2) ts None) as [f2 ok]. simpl in *. exact Hs.
+  destruct (extract g pres cwd (lex_loc wd title) title f1 (es1 ++ e :: es2) ts []) as [f2 ok]. simpl in *. exact Hs.
 Qed.
 
 (* the working directory itself stays a real directory *)
@@ -1266,16 +1403,17 @@ Lemma replace_wd_fixed :
   pushes cfg_fixed false wd0 cwd0 (mkStore fs1 []) os_replace_wd = (mkStore fs1 [], [false]).
 Proof. vm_compute. reflexivity. Qed.
 
-(* with PreservePermissions the unrepaired code also re-modes a directory outside *)
+(* a directory entry on top of a link, with PreservePermissions: the recorded mode is applied after
+   the last entry only to paths that are (still) directories, never through the link *)
 Definition os_remode : list pushop :=
   [PDir (b "t") [] [EDir (b "t/a/b") 493%N; ESym (b "t/a/b/s") (b "../..");
-                 ESym (b "t/l") (b "a/b/s/../.."); EDir (b "t/l") 448%N]].
+                 ESym (b "t/l") (b "a/b/s/../.."); EDir (b "t/e") 448%N; ESym (b "t/e") (b "a/b/s/../..")]].
 
-Lemma refuted_remode :
-  inside wd0 [b "r"] = false /\
-  view_at (st_fs (fst (pushes (mkCfg true true true false true true) true wd0 cwd0 (mkStore fs0 []) os_remode))) [b "r"]
-  <> view_at fs0 [b "r"].
-Proof. split; [vm_compute; reflexivity | vm_compute; discriminate]. Qed.
+Lemma remode_skips_links :
+  snd (fst (pushes cfg_fixed true wd0 cwd0 (mkStore fs0 []) os_remode), snd (pushes cfg_fixed true wd0 cwd0 (mkStore fs0 []) os_remode)) = [true] /\
+  view_at (st_fs (fst (pushes cfg_fixed true wd0 cwd0 (mkStore fs0 []) os_remode))) [b "r"] = view_at fs0 [b "r"].
+Proof. split; vm_compute; reflexivity. Qed.
+
 
 (* the unpack directory is narrowed to the mode the archive records for it (no PreservePermissions);
    other modes are not touched *)
